@@ -13,8 +13,8 @@ def spec(tier, seed):
                       "executed on an arbitrary Options value: symbolic client/server flags and key algorithm (4 variants), opaque strings, two alternative "
                       "names; parse_sans on two arbitrary strings. Every Ok path of main: parameters handed to self_signed / signed_by, issuer and keys, "
                       "PEM pairs and file names",
-            "outside": "the option parser (bpaf), file system writes and process exit codes (environment: arbitrary Options value, write() returns an arbitrary "
-                       "Result); what self_signed / signed_by / key generation / PEM encoding do with their arguments (rcgen's own properties C01-C05, C11, "
+            "outside": "the option parser (bpaf), what the file system does and process exit codes (environment: arbitrary Options value; create_dir_all / "
+                       "File::create / write_fmt return arbitrary Results and are recorded with their arguments, format templates decoded); what self_signed / signed_by / key generation / PEM encoding do with their arguments (rcgen's own properties C01-C05, C11, "
                        "C14); verdicts of independent validators; more than two alternative names; the aws-lc-rs build (P-521)",
             "assumptions": ["engine M: calls out of the binary's own code return arbitrary values of their types and are recorded as events (contracts in "
                             "mirsmt/cli.py)", "MIR is dumped by the pre-installed nightly from a scratch copy of /repo (cargo rustc -p rustls-cert-gen --bin "
